@@ -1,6 +1,6 @@
 (* C17: quoted amounts equal executed amounts; slippage limits are honoured.  Statements only. *)
 From MP.Model Require Import Prelude U128 SInt Feed Vamm VammOps Token World Engine Runtime.
-From MP.Proofs Require Import Tactics SIntFacts VammFacts SwapFacts OpenTxFacts.
+From MP.Proofs Require Import Tactics SIntFacts VammFacts SwapFacts OpenTxFacts LimitTxFacts.
 
 (* the swap reports and moves exactly the requested quote amount and the queried base amount *)
 Theorem C17_input_quote_is_execution : forall v e s d quote lim cgo v' qa ba,
@@ -59,3 +59,19 @@ Theorem C17_open_new_position_tx_swap : forall f w t v s m l lim funds w' vm,
     exists p, find_position (w_eng w') v t = Some p /\ toZ (p_size p) = match s with Buy => ba | Sell => - ba end.
 Proof. exact open_new_position_tx_swap. Qed.
 Print Assumptions C17_open_new_position_tx_swap.
+
+(* END TO END, every non-reversing path.  An OpenPosition that opens, increases or reduces a position (the route the
+   code takes: the position is empty or on the same side, or the requested notional is below what the position is
+   worth at spot) reaches the vAMM as one swap_input of the requested notional carrying the caller's limit unchanged:
+   whenever the transaction succeeds, that limited swap executed on the vAMM state the transaction started from -
+   so (C17_input_limit) the limit was met. *)
+Theorem C17_open_position_tx_limit : forall f w t v s m l lim funds w' vm pn upnl,
+  exec_op f w (OEngine t (EOpenPosition v s m l lim) funds) = Ok w' ->
+  get_vamm w v = Ok vm ->
+  let p := get_position (w_eng w) (w_env w) v t s in
+  let N := m * l / e_dec (ec (w_eng w)) in
+  get_pnl w v p PSpot = Ok (pn, upnl) ->
+  is_increase_of p s = true \/ N < pn ->
+  exists vm' ba, swap_input vm (w_env w) A_ENGINE (side_to_direction s) N lim false = Ok (vm', (N, ba)).
+Proof. exact open_position_tx_limit. Qed.
+Print Assumptions C17_open_position_tx_limit.
